@@ -52,7 +52,7 @@ func verifEnum(alphabet []byte, n int, f func([]byte)) int {
 // {'>', LF, '-', ' ', 'x'} up to the bound.
 func TestVerifBoundedUnquoteQuote(t *testing.T) {
 	defer verifReportPanic("UnquoteQuote")
-	n := verifBound(7, 9)
+	n := verifBound(7, 10)
 	fails := 0
 	first := ""
 	accepted := 0
@@ -110,7 +110,7 @@ func verifEnumTokens(tokens []string, n int, f func([]byte)) int {
 // ("-- ", " --", "--", "x", " ", LF, CRLF, CR, "-- x --" + LF, "-- y --") up to the bound.
 func TestVerifBoundedParseRoundTrip(t *testing.T) {
 	defer verifReportPanic("ParseRoundTrip")
-	n := verifBound(5, 6)
+	n := verifBound(5, 7)
 	fails := 0
 	first := ""
 	nontrivial := 0
